@@ -203,6 +203,12 @@ def run(ctx, n=None, module_gate_only=False):
         tfpat = rng.choice([None, None, "^test_", "a$"])
         usec = rng.random() < 0.2
         mfilter = rng.choice([None, None, "tests", "!pkg", "test_a", "^c14ns", "!c14ns", "^tests$", r"^c14ns\.sub\.", "^pkg"])
+        if rng.random() < 0.2:
+            # several -m patterns, each a regular expression of its own (inline flags, groups): a module is loaded iff
+            # one of the positive ones finds it and none of the negated ones does
+            mfilter = rng.choice([["(?i)^PKG", "^C14NS"], ["(?i)TESTS$", "^Pkg", "SUB"], ["!(?i)^PKG", "!^C14NS"],
+                                  ["(?i)^pkg\\.", "TEST_A"], ["(t)ests", "(s)ub\\.\\1"], ["!(?i)SUB", "!TESTS"],
+                                  ["(?x) ^ pkg", "tests $"]])
         given_ignore = []
         if rng.random() < 0.25:
             # names given with --ignore_dir are ignored *in addition to* the built-in ones
@@ -215,8 +221,8 @@ def run(ctx, n=None, module_gate_only=False):
             args += ["--test-file-pattern", tfpat]
         if usec:
             args.append("--usecompiled")
-        if mfilter:
-            args += ["-m", mfilter]
+        for mf_ in ([mfilter] if isinstance(mfilter, str) else (mfilter or [])):
+            args += ["-m", mf_]
         # -s/--package: the walk starts at the directories of the named packages (first --path root on sys.path)
         pkg_rel = None
         path_roots = [r for k, r in enumerate(orig_roots) if k % 2 == 0]
@@ -268,7 +274,7 @@ def run(ctx, n=None, module_gate_only=False):
             args += ["-m", mfilter]
             with contextlib.redirect_stdout(io.StringIO()):
                 options = get_options(list(args), [])
-        if (idx % 4 == 0 or module_gate_only) and not usec:
+        if (idx % 4 == 0 or module_gate_only or isinstance(mfilter, list)) and not usec:
             pr = subprocess.run([common.PY, "-m", "zope.testrunner", "--list-tests"] + args[1:], cwd=ctx.tmp, env=env,
                                 stdout=subprocess.PIPE, stderr=subprocess.PIPE, timeout=120)
             out = pr.stdout.decode("utf-8", "replace")
@@ -293,8 +299,9 @@ def run(ctx, n=None, module_gate_only=False):
                 stems.add(nm[:-4])
         enc = lambda s: [ord(ch) for ch in s]  # noqa: E731
         base_path = [c for c in d.split("/") if c]
-        from zope.testrunner.filter import build_filtering_func
-        acc = build_filtering_func(options.module)
+        # (the C08 sentence over the patterns as given - each compiled on its own -, not the function under test)
+        from harness import corr_world as _cw
+        acc = _cw.statement_accept(list(options.module))
         q = {"op": "discovery",
              "roots": [{"path": [enc(c) for c in base_path + list(r)], "tree": jtree(subtree(tree, r)),
                         "pkg": [enc(c) for c in pk]} for r, pk in zip(roots, roots_pkgs)],
@@ -386,6 +393,12 @@ def run(ctx, n=None, module_gate_only=False):
             # recorded imports is compared only when nothing failed
             parents = {".".join(f_.split(".")[:k]) for f_ in (failed_imports or []) for k in range(1, len(f_.split(".")))}
             attempted -= (parents - set(mimp_once))
+            missing = sorted(set(mimp_once) - attempted)
+            if missing:
+                # (the files agree with the model's, the -m patterns were evaluated one by one as the statement says)
+                ctx.violation("modules that match the -m patterns %r were never loaded: %r (loaded %r)" % (
+                    list(options.module), missing[:6], ok[:6]), case, signature="C14:not-loaded")
+                continue
             if set(mimp_once) != attempted or (not failed_imports and [m for m in mimp_once if m in ok] != ok):
                 ctx.drift("discovery.imports", "model imports %r, real imported %r + failed %r" % (
                     mimp_once, ok, failed_imports), case)
